@@ -606,6 +606,14 @@ impl<W: Write + io::Seek> ZipWriter<W> {
     where
         S: Into<String>,
     {
+        // The encrypting writer buffers the entry, so the local extra data could not be placed
+        // behind the header: refuse the combination instead of panicking when the data is ended.
+        if options.encrypt_with.is_some() {
+            return Err(ZipError::Io(io::Error::new(
+                io::ErrorKind::InvalidInput,
+                "Extra data is not supported for encrypted entries",
+            )));
+        }
         if options.permissions.is_none() {
             options.permissions = Some(0o644);
         }
